@@ -139,6 +139,7 @@ class Interp:
         self.ptr_class = {}  # mem atom -> 'TABLE' | 'DATA'
         self.iv_init = {}
         self.iv_step = {}
+        self.implicit_exits = []
         self.ptr_args = set()
 
     # ------------------------------------------------------------------------------------------
@@ -997,6 +998,7 @@ class Interp:
             t = f.blocks[b].insts[-1]
             if t.op in ("ret", "resume", "unreachable"):
                 sm.exits.append((t.op, b, self.guard.get(b, TRUE), self.out_mem[b]))
+        sm.exits.extend(self.implicit_exits)
         sm.interp = self
         return sm
 
@@ -1354,6 +1356,9 @@ class Interp:
         if ins.op == "invoke":
             self.edge_cond[(b, ins.attrs["normal"])] = c_not(("throws", e.seq))
             self.edge_cond[(b, ins.attrs["unwind"])] = ("throws", e.seq)
+        elif kind == "ALLOC" and self.opts.get("eh") and not ins.attrs.get("nounwind"):
+            # a plain call that may throw: the exception leaves the function right here
+            self.implicit_exits.append(("resume_call", b, c_and(self.guard.get(b, TRUE), ("throws", e.seq)), mem.copy()))
         return res
 
     # ------------------------------------------------------------------------------------------
